@@ -72,6 +72,21 @@ claim('C11', 'who-may-write (field / map mutation sites), pairing and guard (edg
       'rustc front end + MIR; mirfacts; BTreeMap semantics.',
       'DESIGN.md section 4 C11')
 
+claim('C01', 'provenance (origin terms with capture / getter resolution) and guard (edge-cut) rules on MIR',
+      'Decides named necessary conditions of in-order, exactly-once, hole-free hand-over: the reliable window is exclusive on both ends with lower = read pointer and '
+      'upper = max(reliable marker, lower+1); the read pointer is advanced to exactly the change returned; the reliable marker is always the ack_base of the same writer\'s proxy; '
+      'duplicates are dropped before the cache; CacheChange fields come from the delivering submessage; exclusive "..._before" bounds are decremented when used as inclusive range ends. '
+      'Ordering over arbitrary DATA/GAP/HEARTBEAT histories is NOT decided.',
+      'rustc front end + MIR; mirfacts; BTreeMap::range semantics; naming convention *_before = exclusive bound (R01.6).',
+      'DESIGN.md section 4 C01')
+claim('C03', 'who-may-write + guard rules on the acknowledgment frontier, provenance rules on ACKNACK / NACKFRAG construction',
+      'Decides: ack_base is written only monotonically (constructors, + k in advance_ack_base, guarded jump in irrelevant_changes_range) and advanced exactly when a number equals it; '
+      'counts come from a post-incremented counter; the ACKNACK base is first() of the unfiltered missing list (ack_base when nothing is missing) and the list scans '
+      '[max(hb.first, ack_base), hb.last] reporting only numbers absent from `changes`; the set is limited to the 256 window; NACKFRAGs name the missing fragments of their sample. '
+      'That every listed number is really missing over arbitrary histories is NOT decided.',
+      'rustc front end + MIR; mirfacts.',
+      'DESIGN.md section 4 C03')
+
 _pending = 'check not built yet in this revision (static rules designed in DESIGN.md section 4; implementation in progress)'
 for _p in ['C01', 'C02', 'C03', 'C04', 'C05', 'C06', 'C08', 'C09', 'C10', 'C11', 'C12', 'C14', 'C15', 'C16', 'C17', 'C18', 'C19', 'C20']:
     if _p not in CHECKS:
